@@ -334,7 +334,7 @@ def stateOracles (s : CS) (fwd : Bool) (del : Bool := false) (sup : Bool := fals
   [("C01.loop_inv", inv), ("C02.loop_inv", inv), ("C06.loop_inv", inv), ("C07.loop_inv", inv), ("C09.loop_inv", inv),
    ("C09.loop_total", totalOK s), ("C06.loop_total", totalOK s),
    ("C01.loop_exposure", exposureOK s), ("C06.loop_exposure", exposureOK s),
-   ("C01.loop_supervised", supervisedOK s), ("C06.loop_supervised", supervisedOK s)]
+   ("C01.loop_supervised", supervisedOK s), ("C06.loop_supervised", supervisedOK s), ("C08.loop_supervised", supervisedOK s)]
 
 /-- **C02.i on one Rollout reconcile of the closed loop** (the conclusion of `RV.Lemmas.ClosedLoop.rolling_gate`, judged on
     the state before and after): the index moves only from `StepReady` by one; a gate that is passed was observed open -/
